@@ -789,3 +789,88 @@ def check(run, prog, tier):
         run.ob("C16-k", "real-format:%s" % fname, bool(fl) and not bad, "%s(\"%s\") keeps a decimal point or exponent for every value" % (fn, text) if fl and not bad else
                "%s(\"%s\") at line %s prints integral values (1.0, 100000.0) without a decimal point: they are restored as integers" % (fn, text, l), sw.file, l, fname,
                what="%s prints a float with %s, which drops the decimal point of integral values" % (fname, bad))
+
+    # ---- C16-m a parser that reports success has produced a value
+    run.rule("C16-m", "restore parsers with an output value (int f(char **|char *, svalue_t *out)): every `return 0` (success) is reached only after *out was written - a store to out->type, or a call that hands `out` on to another parser of the family - so a caller never takes an uninitialised svalue for the restored value", 5)
+    fam = [g for g in prog.functions() if g.file.endswith(("lib/lpc/object.c", "lib/lpc/mapping.c")) and g.name.startswith("restore_") and g.rt == "int"
+           and len(g.params or []) == 2 and "svalue" in (g.params[1].get("t") or "") and "*" in (g.params[1].get("t") or "")]
+    run.need(len(fam) >= 5, "restore parsers with an output svalue (found %d)" % len(fam))
+    famnames = {g.name for g in fam} | {"safe_restore_svalue", "restore_svalue"}
+    for g in sorted(fam, key=lambda x: (x.file, x.line)):
+        run.saw(g)
+        outp = g.params[1]
+        writes = set()
+        for b, i, n in g.nodes():
+            if n.get("k") == "Asg" and n.get("op") == "=":
+                l = strip(n["L"])
+                # out->type = ..., *out = ...
+                if l.get("k") == "Mem" and l.get("f") == "type" and strip(l["b"]).get("k") == "Ref" and strip(l["b"]).get("id") == outp.get("id"):
+                    writes.add(b.id)
+                if l.get("k") == "Un" and l.get("op") == "*" and strip(l["e"]).get("id") == outp.get("id"):
+                    writes.add(b.id)
+            if n.get("k") == "Call" and (n.get("fn") in famnames or (n.get("fn") or "").startswith(("restore_", "parse_"))) and any(strip(a).get("k") == "Ref" and strip(a).get("id") == outp.get("id") for a in n.get("args", [])):
+                writes.add(b.id)
+        rets = [(b, i, e) for b, i, e in g.elements() if e.get("k") == "Return" and "e" in e and const_val(e["e"]) == 0]
+        if not rets:
+            # returns a variable: the success value is whatever the delegate returned
+            run.ob("C16-m", "out-written:%s" % g.name, None if not writes else True, "%s has no literal `return 0`; it writes or delegates its output in %d places" % (g.name, len(writes)), g.file, g.line, g.name)
+            continue
+        bad = None
+        for b, i, e in rets:
+            if b.id in writes:
+                continue
+            p = g.reach_avoiding([g.entry], lambda blk, t=b.id: blk.id == t, avoid_blocks=writes)
+            if p is not None:
+                bad = (e.get("l"), p[:10])
+                break
+        run.ob("C16-m", "out-written:%s" % g.name, bad is None, "every `return 0` of %s (%d) comes after a write of *%s" % (g.name, len(rets), outp.get("n")) if bad is None else
+               "`return 0` at line %s is reachable (path %s) without anything having been written to *%s: the caller takes whatever the svalue held for the restored value" % (bad[0], bad[1], outp.get("n")), g.file, bad[0] if bad else g.line, g.name,
+               what="%s reports success without producing a value" % g.name)
+
+    # ---- C16-n a pair inserted while the hash table doubles lands in the bucket of the new table
+    run.rule("C16-n", "mapping builders (restore_mapping and its siblings in lib/lpc/mapping.c): growMap() doubles the table and moves every node whose hash has the new bit set into the upper half; the insertion that triggered it addresses its bucket with an index computed under the old mask, so the success branch of growMap() updates that index (`i |= size` when the hash has the new bit, or `i = hash & newmask`) before the pair is linked - otherwise the pair sits in a bucket where lookups with the new mask never search", 5)
+    ngm = 0
+    for g in sorted(prog.functions(), key=lambda x: (x.file, x.line)):
+        if g.name == "growMap" or not g.file.endswith(("lib/lpc/object.c", "lib/lpc/mapping.c")):
+            continue
+        gm = [(b, i, n) for b, i, n in g.calls("growMap")]
+        if not gm:
+            continue
+        # locals that hold the table, and the integer locals used to address a bucket in it
+        tbl = set()
+        for b, i, n in g.nodes():
+            if n.get("k") == "Asg" and n.get("op") == "=" and strip(n["L"]).get("k") == "Ref" and strip(n["R"]).get("k") == "Mem" and strip(n["R"]).get("f") == "table":
+                tbl.add(strip(n["L"]).get("id"))
+            if n.get("k") == "Decl":
+                for v in n.get("vars", ()):
+                    if isinstance(v.get("init"), dict) and strip(v["init"]).get("k") == "Mem" and strip(v["init"]).get("f") == "table":
+                        tbl.add(v.get("id"))
+
+        def is_table(e):
+            e = strip(e)
+            return (e.get("k") == "Ref" and e.get("id") in tbl) or (e.get("k") == "Mem" and e.get("f") == "table")
+        idx = set()
+        for b, i, n in g.nodes():
+            if n.get("k") == "Sub" and is_table(n["b"]):
+                idx |= {x.get("id") for x in walk(n["i"]) if x.get("k") == "Ref" and x.get("d") == "local"}
+            if n.get("k") == "Bin" and n.get("op") == "+" and is_table(n["L"]):
+                idx |= {x.get("id") for x in walk(n["R"]) if x.get("k") == "Ref" and x.get("d") == "local"}
+        for j, (b, i, n) in enumerate(gm):
+            c = g.branch_cond(b)
+            if c is None or not any(x is n for x in walk(c)):
+                continue
+            ngm += 1
+            run.saw(g)
+            e, t = normalize_cond(c, True)
+            s_ok = b.succ[0] if t else b.succ[1]
+            s_fail = b.succ[1] if t else b.succ[0]
+            fail_reach = cfgq.reach_set(g, [s_fail]) if s_fail is not None else set()
+            region = {x for x in cfgq.reach_set(g, [s_ok]) if g.dominates(s_ok, x)} if s_ok is not None else set()
+            upd = [(b2, n2) for b2, i2, n2 in g.nodes() if b2.id in region and n2.get("k") == "Asg" and strip(n2["L"]).get("k") == "Ref" and strip(n2["L"]).get("id") in idx and strip(n2["L"]).get("id") is not None]
+            # only the part of the region before control joins the failure path counts as "the success branch"
+            upd = [(b2, n2) for b2, n2 in upd if b2.id not in fail_reach or g.dominates(s_ok, b2.id)]
+            ok = bool(upd) and bool(idx)
+            run.ob("C16-n", "rebucket:%s:%d" % (g.name, j), ok, "after growMap() succeeded the bucket index is updated (`%s`, line %s)" % (show(upd[0][1])[:40], upd[0][1].get("l")) if ok else
+                   "the success branch of growMap() (line %s) does not update the index with which %s addresses the bucket afterwards: the pending pair is linked into the bucket of the old, smaller table" % (n.get("l"), g.name),
+                   g.file, n.get("l"), g.name, what="%s links a pair under the old mask after the table was doubled: the key is listed by keys() but never found" % g.name)
+    run.need(ngm >= 5, "insertions that may grow the table (found %d)" % ngm)
